@@ -1,6 +1,9 @@
 package main
 
 import (
+	"fmt"
+	"go/token"
+
 	"golang.org/x/tools/go/ssa"
 )
 
@@ -129,4 +132,86 @@ func comparesWithLen(v ssa.Value, depth int) bool {
 		return comparesWithLen(x.X, depth+1)
 	}
 	return false
+}
+
+// checkPlatformRange: a cmap encoding record names one of the platforms 0
+// (Unicode), 1 (Macintosh), 2 (ISO), 3 (Windows), 4 (Custom).  cmap.Decode
+// rejects records with other platform ids; the test must still admit all
+// five, or a table that Encode wrote (it writes whatever keys the Table has)
+// is refused as a whole when it is read back.
+func checkPlatformRange(w *World, r *Report) {
+	r.Rule("platformrange: the test with which cmap.Decode rejects the platform id of an encoding record (the 16-bit value at offset 4+8i of the table) admits every platform the format defines, 0..4")
+	fn := w.Func("cmap.Decode")
+	if fn == nil {
+		r.Fatal("cmap.Decode does not resolve")
+		return
+	}
+	key := r.MkKey("platformrange", "cmap.Decode", "rejection test of the platform id")
+	n := 0
+	for _, b := range fn.Blocks {
+		if len(b.Instrs) == 0 {
+			continue
+		}
+		ifi, ok := b.Instrs[len(b.Instrs)-1].(*ssa.If)
+		if !ok {
+			continue
+		}
+		cmp, ok := ifi.Cond.(*ssa.BinOp)
+		if !ok {
+			continue
+		}
+		k, isC := bconstInt(cmp.Y)
+		if !isC {
+			continue
+		}
+		// the left side: data[4+8i]<<8 | data[5+8i]
+		isPlatform := false
+		for v := range backSlice(cmp.X) {
+			ia, ok := v.(*ssa.IndexAddr)
+			if !ok {
+				continue
+			}
+			if add, ok := ia.Index.(*ssa.BinOp); ok && add.Op == token.ADD {
+				for _, pair := range [][2]ssa.Value{{add.X, add.Y}, {add.Y, add.X}} {
+					if c, isC := bconstInt(pair[0]); isC && c == 4 {
+						if mul, ok := pair[1].(*ssa.BinOp); ok && mul.Op == token.MUL {
+							isPlatform = true
+						}
+					}
+				}
+			}
+		}
+		if !isPlatform {
+			continue
+		}
+		// which values reach the error return?
+		rejectsOnTrue := false
+		if t := b.Succs[0]; len(t.Instrs) > 0 {
+			if _, isRet := t.Instrs[len(t.Instrs)-1].(*ssa.Return); isRet {
+				rejectsOnTrue = true
+			}
+		}
+		if !rejectsOnTrue {
+			continue
+		}
+		n++
+		maxOK := int64(-1)
+		switch cmp.Op {
+		case token.GTR:
+			maxOK = k
+		case token.GEQ:
+			maxOK = k - 1
+		}
+		switch {
+		case maxOK < 0:
+			r.Fail("platformrange", key, w.Pos(cmp.Pos()), "the platform id is rejected by a test this rule does not understand (expected: id > constant)", nil)
+		case maxOK < 4:
+			r.Fail("platformrange", key, w.Pos(cmp.Pos()), fmt.Sprintf("platform ids above %d are rejected, but the format defines platforms 0..4 (4 = Custom): a table with such a record, which Encode writes without complaint, cannot be read back", maxOK), nil)
+		default:
+			r.OK("platformrange", key, w.Pos(cmp.Pos()), fmt.Sprintf("platform ids 0..%d are admitted", maxOK))
+		}
+	}
+	if n == 0 {
+		r.OK("platformrange", key, w.Pos(fn.Pos()), "no platform id is rejected")
+	}
 }
